@@ -24,14 +24,14 @@ Theorem C13_algebra : forall c w t kind a b o w',
     NoDup (map ek l) /\
     (forall e, e ∈ l -> ma !! ek e = Some e \/ mb !! ek e = Some e) /\
     (forall k, k ∈ map ek l <->
-       alg_math (if kind <? 4 then kind else kind - 4) (is_Some (ma !! k)) (is_Some (mb !! k))).
+       alg_math (alg_kind kind) (is_Some (ma !! k)) (is_Some (mb !! k))).
 Proof. exact T_C13_algebra. Qed.
 
 (* is_disjoint / is_subset / is_superset / == decide the mathematical relations *)
 Theorem C13_predicates : forall c w t kind a b o w',
   0 < cR c -> WInv c w -> t_op t = OSetPred kind a b -> step c w t = Ok o w' ->
   exists (ma mb : gmap N elem) bb, wabs w !! a = Some ma /\ wabs w !! b = Some mb /\ wabs w' = wabs w /\
-    o = OutB bb /\ (bb = true <-> pred_math kind ma mb).
+    o = OutB bb /\ (bb = true <-> pred_math (pred_kind kind) ma mb).
 Proof. exact T_C13_predicates. Qed.
 
 (* iter() of a set in any resize phase: every element, each exactly once, exact length *)
